@@ -355,16 +355,8 @@ def rule_instance_memo(ctx, prefix, fi):
 
 
 def sweep(ctx, prefix, fns):
-    """fns: the anchored functions; the module-state rule also covers every function they can reach"""
-    prog = ctx.prog
-    seen = {}
-    for f in prog.reachable(list(fns)):
-        if f.module.relpath in prog.excluded:
-            continue
-        seen[f.site] = f
     n = 0
-    for site in sorted(seen):
-        f = seen[site]
+    for f in fns:
         rule_module_state(ctx, prefix, f)
         rule_instance_state(ctx, prefix, f)
         rule_memo_order(ctx, prefix, f)
